@@ -271,13 +271,14 @@ class AdvBox(StandIn):
 
 
 class SubS(StandIn):
-    """stand-in subshape: its containment answers are tabulated; every other observable is adversarial
-    (an unbounded region: negative area, a box that does not contain the query)"""
+    """stand-in subshape: its containment answers are tabulated; its other observables are those of a legitimate
+    region of the given signed area -- a bounded one (area > 0) has a box containing every point it contains, an
+    unbounded one (a hole) has a box that contains nothing of interest"""
 
-    def __init__(self, name, answer):
-        self.name, self.answer = name, answer
+    def __init__(self, name, answer, area=-1.0):
+        self.name, self.answer, self.area = name, answer, area
         self.asked = []
-        self.jordans = (Obj("curve_of_" + name),)
+        self.jordans = (CurveS(area),)
 
     def _ask(self, *a, **k):
         self.asked.append((a, tuple(sorted(k.items()))))
@@ -289,58 +290,93 @@ class SubS(StandIn):
         return self._ask(x)
 
     def box(self):
-        return AdvBox()
+        return AdvBox() if not (self.answer and self.area > 0) else FullBox()
 
     def __float__(self):
-        return -1.0
+        return float(self.area)
+
+    def __repr__(self):
+        return self.name
+
+
+class CurveS(StandIn):
+    def __init__(self, area):
+        self.area = area
+
+    def __float__(self):
+        return float(3 * self.area)
+
+
+class FullBox(AdvBox):
+    def __contains__(self, x):
+        return True
+
+    def __and__(self, o):
+        return self
 
 
 def r02_3b(ctx):
     import itertools
-    out = Outcome("R02.3b", "composite membership is *exactly* the quantifier over the subshapes: on every truth "
-                            "assignment of three subshapes the answer is all(...) / any(...), whatever boxes and areas "
-                            "the subshapes report, and every nested query receives the caller's arguments", floor=4)
+    out = Outcome("R02.3b", "composite membership is *exactly* the quantifier over the subshapes: for every input order of "
+                            "three subshapes (stored through the class's own setter) and every truth assignment the "
+                            "answer is all(...) / any(...), whatever boxes and areas the subshapes legitimately report, "
+                            "and every nested query receives the caller's arguments", floor=4)
     out.exhaustive = True
     specs = [("shape.ConnectedShape._contains_point", all, "P"), ("shape.DisjointShape._contains_point", any, "P"),
              ("shape.ConnectedShape._contains_jordan", all, "J"), ("shape.DisjointShape._contains_jordan", any, "J")]
+    ihook = (lambda rn, ev, c, n, r, a, k: True if n == "isinstance" else NotImplemented)
     for q, agg, arg in specs:
         fn = ctx.fn(q)
+        setter = ctx.model.lookup_setter(fn.cls, "subshapes")
         wrong = []
         fwd_bad = False
         undecided = None
-        for answers in itertools.product((True, False), repeat=3):
-            for flag in (True, False):
-                subs = tuple(SubS(f"s{i}", a) for i, a in enumerate(answers))
-                S = Obj("S", subshapes=subs, jordans=tuple(x.jordans[0] for x in subs))
-                S.__dict__["box"] = None
-                try:
-                    got = Runner(ctx, set(), lambda rn, ev, c, n, r, a, k: (AdvBox() if n == "box" and r is S else
-                                                                          -1.0 if n == "float" else NotImplemented)
-                                 ).call_fn(fn, [S, arg, flag])
-                except Undecided as ex:
-                    undecided = str(ex)
+        for areas, answers in itertools.product(((9.0, -4.0, -1.0), (-1.0, -4.0, -9.0)),     # outer + holes / all unbounded
+                                                itertools.product((True, False), repeat=3)):
+            for perm in itertools.permutations(range(3)):
+                for flag in (True, False):
+                    subs = [SubS(f"s{i}", answers[i], areas[i]) for i in range(3)]
+                    S = Obj("S")
+                    try:
+                        if setter is not None:
+                            Runner(ctx, set(), ihook, asserts=True).call_fn(setter, [S, [subs[i] for i in perm]])
+                            stored = [v for k, v in S.__dict__.items() if k.endswith("subshapes")]
+                            if stored:
+                                S.__dict__["subshapes"] = stored[0]
+                        else:
+                            S.__dict__["subshapes"] = tuple(subs[i] for i in perm)
+                        S.__dict__["jordans"] = tuple(x.jordans[0] for x in S.__dict__["subshapes"])
+                        got = Runner(ctx, set(), lambda rn, ev, c, n, r, a, k: (
+                            (FullBox() if agg(answers) else AdvBox()) if n == "box" and r is S else
+                            sum(areas) if n == "float" and a and a[0] is S else NotImplemented)).call_fn(fn, [S, arg, flag])
+                    except (Undecided, Raised) as ex:
+                        undecided = str(getattr(ex, "what", ex))
+                        break
+                    if got is not agg(answers):
+                        wrong.append((answers, perm, flag, got))
+                    for x in subs:
+                        for (a, k) in x.asked:
+                            if not (len(a) >= 1 and a[0] == arg and (len(a) < 2 or a[1] is flag) and
+                                    (len(a) >= 2 or dict(k).get("boundary", None) is flag)):
+                                fwd_bad = True
+                if undecided:
                     break
-                if got is not agg(answers):
-                    wrong.append((answers, flag, got))
-                for x in subs:
-                    for (a, k) in x.asked:
-                        if not (len(a) >= 1 and a[0] == arg and (len(a) < 2 or a[1] is flag) and
-                                (len(a) >= 2 or dict(k).get("boundary", None) is flag)):
-                            fwd_bad = True
             if undecided:
                 break
         word = "all" if agg is all else "any"
         if undecided:
             out.undecided(q, f"not interpretable: {undecided}", where=fn.where())
         elif wrong:
-            a, f, g = wrong[0]
+            a, pm, f, g = wrong[0]
             out.bad(q, f"membership is not {word}(subshape answers)", where=fn.where(),
-                    detail=f"{len(wrong)} of 16 cells wrong, e.g. subshapes answer {a}, boundary={f}: returns {g!r} "
-                           f"(an unbounded subshape's box / area must not short-cut the decision)")
+                    detail=f"{len(wrong)} of 192 cells wrong, e.g. subshapes answer {a}, listed in order "
+                           f"{pm}, boundary={f}: returns {g!r} (the box / area of a hole or of the first-listed subshape "
+                           f"must not short-cut the decision)")
         elif fwd_bad:
             out.bad(q, "nested queries do not receive the caller's (object, boundary) arguments", where=fn.where())
         else:
-            out.ok(q, f"16 cells: result == {word}(answers); arguments forwarded", where=fn.where())
+            out.ok(q, f"192 cells (2 area worlds x 8 assignments x 6 input orders x 2 flags): result == {word}(answers)",
+                   where=fn.where())
     return out
 
 
